@@ -146,12 +146,38 @@ def in_loop(fn, L, nid):
 
 
 def guard_conds(fn, nid):
-    """[(stripped condition node, sense)] of the dominating conditions of nid (conjunctions / negations expanded)."""
-    out = []
-    for (c, sense, _b) in guards_of(fn, nid):
-        n = fn.sn(c)
-        if n is not None:
+    """[(stripped condition node, sense)] of the dominating conditions of nid.  Conjunctions / negations are expanded, and
+    a condition that is a named bool local (`const bool last = (live == 1); if (last) ..`) is replaced by what it was
+    initialised with, so naming a sub-expression does not change what a rule sees."""
+    out, seen = [], set()
+
+    def emit(n, sense):
+        if (n['id'], sense) not in seen:
+            seen.add((n['id'], sense))
             out.append((n, sense))
+
+    def expand(cid, sense, depth):
+        n = fn.sn(cid)
+        hops = 0
+        while n is not None and n.get('k') == 'cast' and hops < 4:      # static_cast<bool>(x) (assert) / functional casts
+            n = fn.sn(n.get('sub'))
+            hops += 1
+        if n is None or depth > 8:
+            return
+        emit(n, sense)
+        k = n.get('k')
+        if k == 'binop' and ((n['op'] == '&&' and sense) or (n['op'] == '||' and not sense)):
+            expand(n['lhs'], sense, depth + 1)
+            expand(n['rhs'], sense, depth + 1)
+        elif k == 'unop' and n['op'] == '!':
+            expand(n['sub'], not sense, depth + 1)
+        elif k == 'var' and n.get('vk') == 'local':
+            o = origin(fn, n['id'])
+            if o is not None and o['id'] != n['id']:
+                expand(o['id'], sense, depth + 1)
+
+    for (c, sense, _b) in guards_of(fn, nid):
+        expand(c, sense, 0)
     return out
 
 
@@ -244,7 +270,14 @@ def subtree_calls(fn, nid, q):
 def origin(fn, nid, hops=6):
     """Strip wrappers and follow single-assignment locals to their initialiser: the node that produced the value.
     `auto& db = member_database(t); db.remove(..)` -> the member_database call.  Returns a node (or None)."""
-    n = fn.sn(nid) if nid is not None else None
+    def through_copies(n):
+        g = 0
+        while n is not None and n.get('k') == 'construct' and (n.get('copymove') or n.get('elidable')) and len(n.get('args', [])) == 1 and g < 4:
+            n = fn.sn(n['args'][0])
+            g += 1
+        return n
+
+    n = through_copies(fn.sn(nid) if nid is not None else None)
     while n is not None and hops > 0 and n.get('k') == 'var' and n.get('vk') == 'local':
         hops -= 1
         init = None
@@ -269,7 +302,7 @@ def origin(fn, nid, hops=6):
         # class type with arguments (the caller may want the construct itself): return the initialiser in all cases
         if nx is None:
             return n
-        n = nx
+        n = through_copies(nx)
     return n
 
 
@@ -389,8 +422,49 @@ def elem_loops(fn):
     return out
 
 
+def _reach(fn, start, stop):
+    seen, work = set(), [start]
+    while work:
+        b = work.pop()
+        if b is None or b in seen or b == stop:
+            continue
+        seen.add(b)
+        work.extend(fn.succs(b))
+    return seen
+
+
+def loop_body_blocks(fn, L):
+    """Blocks of the loop body, from the CFG (so that helper bodies expanded in place count as part of the loop): what is
+    reachable from the condition's true edge without re-entering the condition, minus what is reachable from its false
+    edge (the code after the loop, which `break` also reaches).  None when the condition block cannot be identified."""
+    key = (L.start, L.inc)
+    cache = fn.__dict__.setdefault('_c11_loop_bodies', {})
+    if key in cache:
+        return cache[key]
+    pos = fn.positions()
+    res = None
+    if L.start in pos:
+        sb = pos[L.start][0]
+        cb = None
+        if L.kind == 'iterator':
+            cb = sb if len(fn.blocks[sb]['succs']) == 2 else None
+        else:
+            for p_ in fn.preds().get(sb, []):
+                if fn.blocks[p_].get('termcls') == 'CXXForRangeStmt' and len(fn.blocks[p_]['succs']) == 2 and fn.blocks[p_]['succs'][0] == sb:
+                    cb = p_
+        if cb is not None:
+            t, f = fn.blocks[cb]['succs']
+            res = _reach(fn, t, cb) - (_reach(fn, f, cb) if f is not None else set())
+    cache[key] = res
+    return res
+
+
 def loop_contains(fn, L, nid):
-    return fn.in_range(nid, L.loop['b'], L.loop['e'])
+    body = loop_body_blocks(fn, L)
+    if body is None:
+        return fn.in_range(nid, L.loop['b'], L.loop['e'])
+    pos = fn.positions()
+    return nid in pos and pos[nid][0] in body
 
 
 # ---------------------------------------------------------------------------------------------------- helper inlining
@@ -490,6 +564,7 @@ def inline_calls(fb, fn, should_inline, max_inlines=10):
                 view.loops = list(fn.loops)
                 view._pos = view._preds = view._parent = view._dom = view._pdom = None
                 view.inlined = []
+                view._c11_loop_bodies = {}
             off = max(view.nodes) + 1
             boff = max(view.blocks) + 1
             args = [a for a in n.get('args', [])]
@@ -542,6 +617,7 @@ def inline_calls(fb, fn, should_inline, max_inlines=10):
             n2['_inlined'] = g.q
             view.nodes[n['id']] = n2
             view.inlined.append(g.q)
+            view._c11_loop_bodies = {}
             view._pos = view._preds = view._parent = view._dom = view._pdom = None
             stack.add(g.usr)
             done += 1
